@@ -205,6 +205,10 @@ mut('C11', 'dag_level_environment_dropped', 'internal/dag/executor/command.go', 
 """)
 mut('C11', 'environment_reset_before_outputs', 'internal/dag/executor/command.go', """	step.OutputVariables.Range(func(_, value any) bool {""", """	cmd.Env = cmd.Env[:0]
 	step.OutputVariables.Range(func(_, value any) bool {""")
+mut('C08', 'failing_step_left_running_during_stop', S, """							node.setStatus(NodeStatusCancel)
+							sc.setLastError(execErr)
+						case node.data.Step.RetryPolicy != nil""", """							sc.setLastError(execErr)
+						case node.data.Step.RetryPolicy != nil""")
 # ---- C10
 mut('C10', 'interrupted_steps_not_reset', G, """				dict[u] == NodeStatusCancel || dict[u] == NodeStatusRunning {""", """				dict[u] == NodeStatusCancel {""")
 mut('C10', 'canceled_steps_not_reset', G, """			if retry[u] || dict[u] == NodeStatusError ||
